@@ -105,6 +105,19 @@ class TableOracle:
             if any(int(x.state) == 21 for x in t):
                 self.fail(pair, 'table:deleted-entry', f'{ep.name}: a DELETED IKE_SA is still listed after {action}')
                 return
+            # an IKE_SA that ended is removed TOGETHER WITH its kernel SAs: every SA in the kernel belongs to a
+            # CHILD_SA of an IKE_SA the table still lists
+            owned = set()
+            for x in t:
+                for ch in x.child_sas:
+                    owned.add(bytes(ch.inbound_spi))
+                    owned.add(bytes(ch.outbound_spi))
+            orphans = [k for k in ep.kernel.sad if bytes(k[2]) not in owned]
+            if orphans:
+                self.fail(pair, 'table:removed-ike-sa-left-kernel-sas',
+                          f'{ep.name}: after {action} the kernel holds {len(orphans)} SA(s) ({[k[2].hex() for k in orphans][:4]}) '
+                          f'that belong to no CHILD_SA of a listed IKE_SA (table states {[int(x.state) for x in t]})')
+                return
             if len({bytes(x.my_spi) for x in t}) != len(t):
                 self.fail(pair, 'table:duplicate-spi', f'{ep.name}: two IKE_SAs share a local SPI')
                 return
